@@ -273,7 +273,7 @@ func runAdm(c AdmCase, x *h.Ctx) {
 	conf := viper.New()
 	conf.Set("non_validator_node_auth", c.NVNA)
 	conf.Set("auth_by_ca", c.AuthByCA)
-	conf.Set("handshake_timeout_seconds", 10)
+	conf.Set("handshake_timeout_seconds", 60)
 	sw := p2p.NewSwitch(conf)
 	sw.SetNodeInfo(&p2p.NodeInfo{PubKey: node.PubKey(), Moniker: "node", Network: "c20", Version: "0.1.0", ListenAddr: "10.0.0.1:46656"})
 	sw.SetNodePrivKey(node)
@@ -305,21 +305,21 @@ func runAdm(c AdmCase, x *h.Ctx) {
 		}
 		pk := poolKey(a.Key)
 		pconf := viper.New()
-		pconf.Set("handshake_timeout_seconds", 10)
+		pconf.Set("handshake_timeout_seconds", 60)
 		psw := p2p.NewSwitch(pconf)
 		psw.SetNodePrivKey(pk)
 		psw.SetNodeInfo(&p2p.NodeInfo{PubKey: poolKey(a.Announce).PubKey(), SigndPubKey: sigString(a), Moniker: "peer", Network: "c20", Version: "0.1.0", ListenAddr: fmt.Sprintf("10.0.1.%d:46656", ai+2)})
 		c1, c2 := pipePair()
 		chNode, chPeer := addPeer(sw, c1, false), addPeer(psw, c2, true)
 		var rn addRes
-		timer := time.NewTimer(60 * time.Second)
+		timer := time.NewTimer(180 * time.Second)
 		select {
 		case rn = <-chNode:
 		case <-timer.C:
-			// both ends run under a 10 s handshake deadline set by AddPeerWithConnection itself
+			// both ends run under a 60 s handshake deadline set by AddPeerWithConnection itself
 			c1.Close()
 			c2.Close()
-			x.Fail("admission-attempt-does-not-return", "attempt %d: AddPeerWithConnection did not return within 60 s (handshake deadline 10 s)", ai)
+			x.Fail("admission-attempt-does-not-return", "attempt %d: AddPeerWithConnection did not return within 180 s (handshake deadline 60 s)", ai)
 			return
 		}
 		select {
